@@ -1,12 +1,11 @@
 package main
 
 // String operations. In atom mode (level G) only equality and operations on
-// constants exist; in theory mode (level K) Go strings are SMT Strings with a
-// stated length bound.
+// constants exist; in theory mode (level K) Go strings are bounded bit-vector
+// strings (bvstr.go).
 
 import (
 	"go/token"
-	"strings"
 
 	"golang.org/x/tools/go/ssa"
 )
@@ -17,18 +16,26 @@ func (e *Engine) needTheory(what string) {
 	}
 }
 
+func capGuard(ts ...*Term) {
+	total := 0
+	for _, t := range ts {
+		if !t.IsConst {
+			total += sCap(t)
+		} else {
+			total += len(t.S)
+		}
+	}
+	if total > 200 {
+		panic(unsupported("symbolic string operation beyond 200 bytes"))
+	}
+}
+
 func (e *Engine) strLenBV(s *Term) *Term {
 	if s.IsConst {
 		return BVC(64, uint64(len(s.S)))
 	}
 	e.needTheory("len")
-	t := Int2BV(StrLen(s))
-	if s.Max >= 0 {
-		t.Max = s.Max
-	} else {
-		t.Max = int64(e.strMax * 4)
-	}
-	return t
+	return sLen64(s)
 }
 
 func strCompare(op token.Token, x, y *Term) *Term {
@@ -47,15 +54,16 @@ func strCompare(op token.Token, x, y *Term) *Term {
 	if !strTheory {
 		panic(unsupported("string ordering on symbolic atoms"))
 	}
+	capGuard(x, y)
 	switch op {
 	case token.LSS:
-		return mk(KBool, 0, "str.<", x, y)
+		return sLess(x, y)
 	case token.LEQ:
-		return mk(KBool, 0, "str.<=", x, y)
+		return Not(sLess(y, x))
 	case token.GTR:
-		return mk(KBool, 0, "str.<", y, x)
+		return sLess(y, x)
 	case token.GEQ:
-		return mk(KBool, 0, "str.<=", y, x)
+		return Not(sLess(x, y))
 	}
 	panic("strCompare")
 }
@@ -74,26 +82,10 @@ func (e *Engine) strIndex(st *State, s, idx *Term) Value {
 		return BVC(8, uint64(s.S[idx.BV]))
 	}
 	e.needTheory("indexing")
+	capGuard(s)
 	ln := e.strLenBV(s)
 	e.addPanic(st, Not(And(BVBin(">=", idx, BVC(64, 0), true), BVBin("<", idx, ln, true))))
-	code := mk(KInt, 0, "str.to_code", mk(KStr, 0, "str.at", s, BV2Int(idx)))
-	return mk(KBV, 8, "(_ int2bv 8)", code)
-}
-
-func substr(s *Term, lo, n *Term) *Term {
-	if s.IsConst && lo.IsConst && n.IsConst {
-		l, k := int(lo.BV), int(n.BV)
-		if l >= 0 && k >= 0 && l+k <= len(s.S) {
-			return StrC(s.S[l : l+k])
-		}
-	}
-	t := mk(KStr, 0, "str.substr", s, lo, n)
-	if n.IsConst {
-		t.Max = int64(n.BV)
-	} else if s.Max >= 0 {
-		t.Max = s.Max
-	}
-	return t
+	return sAt(s, BVConv(idx, 64, 8, false))
 }
 
 func (e *Engine) strSlice(fr *Frame, x *ssa.Slice, s *Term, st *State) Value {
@@ -118,40 +110,8 @@ func (e *Engine) strSlice(fr *Frame, x *ssa.Slice, s *Term, st *State) Value {
 		return StrC("")
 	}
 	e.needTheory("slicing")
+	capGuard(s)
 	bad := Or(BVBin("<", lo, BVC(64, 0), true), BVBin(">", lo, hi, true), BVBin(">", hi, ln, true))
 	e.addPanic(st, bad)
-	return substr(s, BV2Int(lo), BV2Int(BVBin("-", hi, lo, true)))
-}
-
-// ---------- level-K library stubs over the string theory ----------
-
-func strContains(s, sub *Term) *Term {
-	if s.IsConst && sub.IsConst {
-		return BoolC(strings.Contains(s.S, sub.S))
-	}
-	return mk(KBool, 0, "str.contains", s, sub)
-}
-func strPrefixOf(pre, s *Term) *Term {
-	if s.IsConst && pre.IsConst {
-		return BoolC(strings.HasPrefix(s.S, pre.S))
-	}
-	return mk(KBool, 0, "str.prefixof", pre, s)
-}
-func strSuffixOf(suf, s *Term) *Term {
-	if s.IsConst && suf.IsConst {
-		return BoolC(strings.HasSuffix(s.S, suf.S))
-	}
-	return mk(KBool, 0, "str.suffixof", suf, s)
-}
-func strIndexOf(s, sub *Term, from *Term) *Term { // Int
-	if s.IsConst && sub.IsConst && from.IsConst && from.BV == 0 {
-		return IntC(int64(strings.Index(s.S, sub.S)))
-	}
-	return mk(KInt, 0, "str.indexof", s, sub, from)
-}
-func strReplace(s, old, nw *Term) *Term { // first occurrence
-	if s.IsConst && old.IsConst && nw.IsConst {
-		return StrC(strings.Replace(s.S, old.S, nw.S, 1))
-	}
-	return mk(KStr, 0, "str.replace", s, old, nw)
+	return sSubstr(s, BVConv(lo, 64, 8, false), BVConv(BVBin("-", hi, lo, true), 64, 8, false))
 }
